@@ -9,7 +9,7 @@ RULE = ("random programs (bounded/ref.py generator) x layout rewritings that mus
         "in sequential context, newline -> '|' inside parallel blocks, doubled separators, '|' at end of line followed by blank / comment-only "
         "lines, inserted // and /* */ comments (several per text, also adjacent to statements), extra spaces and blank lines, one-line "
         "spellings; plus near-misses (one token deleted / duplicated / replaced, truncation at every token, header after body) that must either "
-        "parse (if still derivable) or raise JaqalParseError whose position is at or after the first offending token and inside the text; "
+        "parse exactly when an independent hand-written recogniser of the Jaqal grammar (bounded/jaqal_grammar.py) derives them, and otherwise raise JaqalParseError whose position is at or after the first offending token and inside the text; "
         "literal subcircuit counts incl. 0 must be reported as written; non-trivial = the variant differs from the base text")
 BOUND = "n <= 3, depth <= 3, 12 layout variants and <= 40 near-misses per program"
 BUDGET_S = {"quick": 40, "thorough": 400}
@@ -68,7 +68,8 @@ def render(p, st):
             hdr.append(f"map {name} {src}[{sel[1]}]")
         else:
             _, a, b, c = sel
-            hdr.append(f"map {name} {src}[{a}:{b}" + (f":{c}]" if c is not None else "]"))
+            ta, tb = ("" if a is None else a), ("" if b is None else b)
+            hdr.append(f"map {name} {src}[{ta}:{tb}" + (f":{c}]" if c is not None else "]"))
     body = []
     for name, params, block in p["macros"]:
         body.append(f"macro {name} {' '.join(params)} " + render_stmt(block, st))
@@ -147,8 +148,17 @@ def cases(tier, rng):
                 elif op == "dup":
                     m.insert(j, m[j])
                 else:
-                    m[j] = rng.choice(["]", "[", "{", "}", "<", ">", "|", ":", "let", "map", "loop", "7", "x9"])
+                    m[j] = rng.choice(["]", "[", "{", "}", "<", ">", "|", ":", ";", "\n", "let", "map", "loop", "subcircuit", "7", "x9", "1.5"])
                 yield f"{op}{j}:{text}", {"kind": "nearmiss", "base": text, "toks": m, "at": j}, True
+        # directed near-misses at the block structure: the separator of the other block kind, and a block directly inside
+        # a block of its own kind (sequential and parallel blocks alternate)
+        for tok, repl in (("|", [";"]), ("{", ["{", "{", "}"]), ("<", ["<", "<", ">"])):
+            where = [j for j, t in enumerate(toks) if t == tok]
+            rng.shuffle(where)
+            for j in where[:3]:
+                m = list(toks)
+                m[j:j + 1] = repl
+                yield f"struct{tok}{j}:{text}", {"kind": "nearmiss", "base": text, "toks": m, "at": j}, True
         extra = rng.choice(["let zz 1\n", "map zz q\n", "map zz q[0]\n", "register zr[2]\n", "  let zz 1\n"])
         yield f"header-after-body:{extra}{text}", {"kind": "layout-reject", "text": text + extra, "stmt_line": text.count("\n") + 1,
                                                   "stmt_col": len(extra) - len(extra.lstrip()) + 1}, True
@@ -204,10 +214,16 @@ def check(pl):
             return None
         return "a header statement after body statements was accepted"
     text = join(pl["toks"])
+    from bounded import jaqal_grammar
+    should = jaqal_grammar.legal(text)
     try:
         sexp(text)
+        if not should:
+            return f"the parser accepts a text the Jaqal grammar does not derive:\n{text}"
         return None
     except JaqalParseError as ex:
+        if should:
+            return f"the parser rejects a text the Jaqal grammar derives ({ex}):\n{text}"
         nlines = text.count("\n") + 1
         if ex.line == "EOF":
             return "end-of-input error carries no position"
